@@ -220,6 +220,19 @@ func c16Programs(tier string) []*Spec {
 			sp.Clients[0] = []Op{{K: "ewma", B: 0, N: 1}, {K: "ewma", B: 0, N: 1}}
 		})
 	}
+	// every bar has left, the container keeps refreshing for a while with nothing in it, then Wait
+	{
+		sp := &Spec{Name: "c16-idle-empty", Refresh: "manual", Q: -1, Notifier: true}
+		for i := 0; i < 2; i++ {
+			sp.Bars = append(sp.Bars, BarSpec{Total: 1, Rm: true, Pre: []DecorSpec{syncD(2 + i)}, App: []DecorSpec{syncD(3)}})
+			sp.Main = append(sp.Main, Op{K: "add", B: i})
+		}
+		// a third bar keeps Wait from returning until the empty cycles have run: it is added only afterwards
+		sp.Bars = append(sp.Bars, BarSpec{Total: 1})
+		sp.Main = append(sp.Main, Op{K: "refresh"}, Op{K: "incr", B: 0, N: 1}, Op{K: "incr", B: 1, N: 1}, Op{K: "refresh"}, Op{K: "refresh"}, Op{K: "refresh"},
+			Op{K: "refresh"}, Op{K: "refresh"}, Op{K: "refresh"}, Op{K: "add", B: 2}, Op{K: "refresh"}, Op{K: "incr", B: 2, N: 1}, Op{K: "refresh"}, Op{K: "refresh"})
+		out = append(out, sp)
+	}
 	return out
 }
 
